@@ -679,7 +679,13 @@ macro_rules! impl_graph_traits {
                 // nothing to do for a node that is not in the graph
                 self.graph.node_weight(n)?;
                 self.order_map.remove_node(n, &self.graph);
-                self.graph.remove_node(n)
+                let last = NodeIndex::new(self.graph.node_bound() - 1);
+                let weight = self.graph.remove_node(n);
+                // `Graph::remove_node` moves the last node to the freed index
+                if last != n && self.graph.node_weight(last).is_none() {
+                    self.order_map.move_node(last, n, &self.graph);
+                }
+                weight
             }
         }
 
